@@ -183,6 +183,52 @@ def stall_cases(thorough):
     return [{"mode": "bridge_stall", "side": side, "k": k} for side in (0, 1) for k in ((1, 2, 3) if thorough else (1, 3))]
 
 
+def queue_cases():
+    """B queued on the read / write lock behind the in-flight A while Close runs: every operation kind x (plain / closable) underlying object"""
+    return [{"mode": "stream_queue", "k": k, "started": cl} for k in range(5) for cl in (False, True)]
+
+
+FAULT_SUBS = {0: 3, 1: 2, 2: 4, 3: 4, 4: 2}     # component -> number of failure bits (mapping, stream, session, bridge, tunnel)
+
+
+def fault_cases(rng, thorough):
+    """every failure pattern of the sub-component Close calls of each composite shutdown path, 1 or 3 concurrent callers"""
+    cs = []
+    for comp, nbits in FAULT_SUBS.items():
+        masks = list(range(1 << nbits))
+        if comp == 0:
+            masks = [m for m in masks if not m & 2]       # bit 1 (the tunnel manager) cannot be made to fail
+        if not thorough and len(masks) > 6:
+            masks = [0, (1 << nbits) - 1] + rng.sample(masks[1:-1], 4)
+        for m in masks:
+            for k in ((1, 3) if thorough else (rng.choice([1, 3]),)):
+                cs.append({"mode": "fault_close", "side": comp, "reads": m, "k": k})
+    return cs
+
+
+def attach_cases(rng, thorough):
+    """histories over {close, attach target, attach source, lifecycle end}; every history is ended by the lifecycle's final Close"""
+    import itertools as it
+    ops = ["close", "attach_target", "attach_source", "lifecycle"]
+    out = []
+    for n in range(0, 4):
+        for seq in it.product(ops, repeat=n):
+            ok, open_t, open_s = True, False, True           # the source side starts attached
+            for op in seq:
+                if op in ("close", "lifecycle"):
+                    open_t = open_s = False
+                elif op == "attach_target":
+                    ok, open_t = ok and not open_t, True
+                else:
+                    ok, open_s = ok and not open_s, True
+            if ok:
+                out.append({"mode": "bridge_attach", "events": [{"op": op} for op in seq]})
+    if not thorough:
+        few = [c for c in out if len(c["events"]) <= 2 or sum(e["op"] == "lifecycle" for e in c["events"]) == 0]
+        out = few + rng.sample([c for c in out if c not in few], 6)
+    return out
+
+
 def race_cases(rng, thorough):
     m = 25 if thorough else 1
     cs = []
@@ -212,7 +258,8 @@ def zenc(z):
     return [z < 0, abs(z)]
 
 
-def case_value(c, o, tunnel_fixed, traffic_fixed, stream_fixed=True, start_ctx_first=True, start_spawns=3, writer_holds=False):
+def case_value(c, o, tunnel_fixed, traffic_fixed, stream_fixed=True, start_ctx_first=True, start_spawns=3, writer_holds=False, flags=None):
+    flags = flags or {"lock_first": True, "mapping_early_return": False, "bridge_fast_path": False}
     m = c["mode"]
     if m == "tunnel_start":
         sd = o["steps_done"]
@@ -221,6 +268,33 @@ def case_value(c, o, tunnel_fixed, traffic_fixed, stream_fixed=True, start_ctx_f
         elif sd == -2:     # Start had returned before the point was reached
             sd = start_spawns + 4
         return [5, start_ctx_first, start_spawns, sd, [o["state"], o["on_closed"], 1 if o["start_ok"] else 0, 1 if o["left"] else 0]]
+    if m == "stream_queue":
+        return [7, flags["lock_first"], bool(c.get("started")), o["b_result"] == "err", o["b_calls"] > 0]
+    if m == "fault_close":
+        # sub-components in the order their shutdown was first invoked, then those never invoked
+        names = [n for n in o["order"] if n in o["subs"]] + [n for n in o["subs"] if n not in o["order"]]
+        bits = {0: {"stats": 0, "adapter": 2}, 1: {"writer": 0, "reader": 1}, 2: {"unsubscribe": 0, "conn0": 1, "conn1": 2, "bus": 3},
+                3: {"source-tc": 0, "target-tc": 1}, 4: {"local": 0, "rwc": 1}}[c["side"]]
+        subs = [[o["subs"].index(n), bool(n in bits and c["reads"] >> bits[n] & 1)] for n in names]
+        # only the mapping handler returns its adapter's error; the stats report / the other components swallow or collect errors
+        for sb, n in zip(subs, names):
+            if n == "stats":
+                sb[1] = False
+        early = flags["mapping_early_return"] if c["side"] == 0 else False
+        return [8, early, subs, [o["counts"][o["subs"].index(n)] for n in names]]
+    if m == "bridge_attach":
+        terms = []
+        for side, first in (("source", True), ("target", False)):
+            evs = [True] if first else []
+            obs = []
+            for e in c["events"]:
+                if e["op"] in ("close", "lifecycle"):
+                    evs.append(False)
+                elif e["op"] == "attach_" + side:
+                    evs.append(True)
+            obs = [n for nm, n in zip(o["names"], o["tc_closes"]) if nm.startswith(side)]
+            terms.append([9, flags["bridge_fast_path"], evs, obs])
+        return terms
     if m == "bridge_stall":
         # only the target->source direction goes through dynamicSourceWriter; the source->target copy holds no lock
         return [6, bool(writer_holds) and c["side"] == 0, max(1, c.get("k", 1)), bool(o["close_returned"])]
@@ -257,13 +331,15 @@ def run(ctx, only_cases=None):
     tunnel_fixed, traffic_fixed = flag("TunnelCloseCasRetried"), flag("TrafficReportSerialised")
     stream_fixed = not flag("StreamCloseNilsReader")
     start_ctx_first, writer_holds = flag("TunnelStartSetCtxBeforeCas"), flag("SourceWriterHoldsLockAcrossWrite")
+    flags3 = {"lock_first": flag("StreamLockBeforeClosedCheck"), "mapping_early_return": flag("MappingCleanupEarlyReturn"),
+              "bridge_fast_path": flag("BridgeCloseFastPath")}
     start_spawns = int(re.search(r"Definition TunnelStartSpawns : nat := (\d+)\.", gen_text).group(1))
     broken = None
     try:
         pinfo = vlib.coq_properties("C16")
         vlib.coq_make(["Proofs/SideC16.vo"])
         vlib.proof_coverage(ctx, pinfo, "make -C coq Properties/C16.vo Proofs/SideC16.vo && coqc Properties/C16.v (Print Assumptions audit)",
-                            extra_obligations=7)
+                            extra_obligations=10)
     except vlib.Broken as b:
         broken = b
     ibin = None
@@ -288,6 +364,7 @@ def run(ctx, only_cases=None):
         cases += tunnel_sched_cases(ctx.rng, thorough)
         cases += start_close_cases(ctx.rng, thorough)
         cases += stall_cases(thorough)
+        cases += queue_cases() + fault_cases(ctx.rng, thorough) + attach_cases(ctx.rng, thorough)
         cases += race_cases(ctx.rng, thorough)
     is_instr = lambda c: c["mode"] == "tunnel_sched" or (c["mode"] == "tunnel_start" and c["point"] >= 0)
     plain = [c for c in cases if not is_instr(c)]
@@ -318,10 +395,21 @@ def run(ctx, only_cases=None):
     # ---- model vs implementation on the deterministic modes ----
     # stream_gate reads=1 parks inside io.ReadFull, which holds its own copy of the reader: outside the model's granularity
     det = [(c, o) for c, o in done if c["mode"] in ("dispose_hist", "tunnel_seq", "tunnel_sched", "traffic_gate", "stream_gate",
-                                                     "tunnel_start", "bridge_stall") and "steps_done" in (o if c["mode"] == "tunnel_start" else {"steps_done": 0})
+                                                     "tunnel_start", "bridge_stall", "stream_queue", "fault_close", "bridge_attach")
+           and o.get("key") not in ("stream-queue-setup", "fault-setup") and ("counts" in o or c["mode"] != "fault_close")
+           and ("b_result" in o or c["mode"] != "stream_queue")
+           # ReadExact / WriteExact re-test the context inside their loop before every call: on a check-before-lock tree they
+           # still make no late call, which the coarser check-first model variant does not express (predicate still applies)
+           and not (c["mode"] == "stream_queue" and c["k"] in (1, 4) and not flags3["lock_first"]) and ("names" in o or c["mode"] != "bridge_attach") and "steps_done" in (o if c["mode"] == "tunnel_start" else {"steps_done": 0})
            and o.get("key") != "bridge-stall-setup"
            and not (c["mode"] == "stream_gate" and c["reads"] < 2) and o.get("key") not in ("dispose-hang", "tunnel-hang", "traffic-hang", "stream-gate-hang")]
-    terms = [case_value(c, o, tunnel_fixed, traffic_fixed, stream_fixed, start_ctx_first, start_spawns, writer_holds) for c, o in det]
+    terms, det2 = [], []
+    for c, o in det:
+        t = case_value(c, o, tunnel_fixed, traffic_fixed, stream_fixed, start_ctx_first, start_spawns, writer_holds, flags3)
+        for tt in (t if c["mode"] == "bridge_attach" else [t]):
+            terms.append(tt)
+            det2.append((c, o))
+    det = det2
     mism = []
     try:
         res = vlib.model_eval("C16", terms)
@@ -339,8 +427,8 @@ def run(ctx, only_cases=None):
         c, o = det[i]
         if o["prop_ok"] or o["key"] in ctx.known:
             ctx.violation("model-mismatch:" + c["mode"],
-                          "Corr/C16.check: the Shutdown model (variant tunnel_fixed=%s traffic_fixed=%s stream_fixed=%s start_ctx_first=%s writer_holds_lock=%s) "
-                          "and the real code disagree on a replayed %s history" % (tunnel_fixed, traffic_fixed, stream_fixed, start_ctx_first, writer_holds, c["mode"]), {"case": c, "observed": o}, found_input=not o["prop_ok"])
+                          "Corr/C16.check: the Shutdown model (variant tunnel_fixed=%s traffic_fixed=%s stream_fixed=%s start_ctx_first=%s writer_holds_lock=%s %s) "
+                          "and the real code disagree on a replayed %s history" % (tunnel_fixed, traffic_fixed, stream_fixed, start_ctx_first, writer_holds, flags3, c["mode"]), {"case": c, "observed": o}, found_input=not o["prop_ok"])
 
     # ---- coverage ----
     nontriv = set()
@@ -361,11 +449,15 @@ def run(ctx, only_cases=None):
                 nontriv.add(json.dumps(c, sort_keys=True))
         elif c["mode"] == "tunnel_start" and o.get("closed_inside"):
             nontriv.add(json.dumps(c, sort_keys=True))
-        elif c["mode"] == "bridge_stall":
+        elif c["mode"] == "bridge_stall" or (c["mode"] == "stream_queue" and o.get("b_parked_on_lock")):
+            nontriv.add(json.dumps(c, sort_keys=True))
+        elif c["mode"] == "fault_close" and c["reads"] != 0:
+            nontriv.add(json.dumps(c, sort_keys=True))
+        elif c["mode"] == "bridge_attach" and any(e["op"].startswith("attach") for e in c["events"]):
             nontriv.add(json.dumps(c, sort_keys=True))
     trials = sum(o.get("trials", 0) for c, o in done if c["mode"].endswith("race"))
     samples = []
-    for mode in ("dispose_hist", "tunnel_sched", "traffic_gate", "tunnel_start", "bridge_stall", "tunnel_race"):
+    for mode in ("dispose_hist", "tunnel_sched", "traffic_gate", "tunnel_start", "bridge_stall", "stream_queue", "fault_close", "bridge_attach", "tunnel_race"):
         for c, o in done:
             if c["mode"] == mode:
                 samples.append({"case": c, "observed": {k: v for k, v in o.items() if k not in ("prop_msg",)}})
@@ -378,8 +470,11 @@ def run(ctx, only_cases=None):
                 "(every subset of 2-3 closers parked between Load and CAS x every release order x both start states), reportTrafficStats "
                 "histories through a cloud-control double that parks every call, ONE complete Close at every point inside Tunnel.Start (the "
                 "manager double's Ctx() accessor + every statement boundary of the instrumented Start), Bridge.Close by 1-3 callers while a "
-                "forwarding write is blocked on a stalled source / target peer (watchdog 3 s). non-trivial = at least two closers/reporters really "
-                "interleave (>=2 closes or close+add; >=2 parked closers; >=2 sequential ops; >=2 started reporters with a positive add; a Close that really landed inside Start; every stalled-peer case); "
+                "forwarding write is blocked on a stalled source / target peer (watchdog 3 s), a stream-processor operation B (5 kinds) parked on "
+                "the read / write lock behind an in-flight A while Close runs and returns (goroutine-dump poll), every failure pattern of the "
+                "sub-component Close calls of the composite shutdown paths (mapping handler, StreamProcessor, SessionManager, Bridge, Tunnel) "
+                "with 1 or 3 concurrent callers, attach-after-close histories of the bridge up to length 3 ended by the lifecycle's Close. non-trivial = at least two closers/reporters really "
+                "interleave (>=2 closes or close+add; >=2 parked closers; >=2 sequential ops; >=2 started reporters with a positive add; a Close that really landed inside Start; every stalled-peer case; a really parked queued operation; a non-empty failure mask; a history with an attach); "
                 "distinct by the full case. Contention loops (K goroutines behind a barrier, exactly-once counters, goroutine-dump diff) are "
                 "counted separately in contention_trials." % (6 if thorough else 4),
         "samples": samples,
@@ -391,7 +486,9 @@ def run(ctx, only_cases=None):
         "input_distribution": dist,
         "tree_variant": {"tunnel_close_cas_retried": tunnel_fixed, "traffic_report_serialised": traffic_fixed,
                          "stream_onclose_keeps_reader": stream_fixed,
-                         "start_setctx_before_cas": start_ctx_first, "source_writer_holds_lock_across_write": writer_holds},
+                         "start_setctx_before_cas": start_ctx_first, "source_writer_holds_lock_across_write": writer_holds,
+                         "stream_lock_before_closed_check": flags3["lock_first"], "mapping_cleanup_early_return": flags3["mapping_early_return"],
+                         "bridge_close_fast_path": flags3["bridge_fast_path"]},
         "tunnel_race_double_bodies_seen": sum(o.get("doubles", 0) for c, o in done if c["mode"] == "tunnel_race"),
         "generated_file_changed": gen_changed,
     })
